@@ -480,6 +480,24 @@ fn string_pass(total: &Mutex<Acc>) -> u64 {
             }
         }
     }
+    // whole and fractional powers whose exact value does not fit a double's mantissa
+    for a in [2.0, 3.0, 5.0, 7.0, 10.0, 11.0, 15.0, 1.5, 0.1] {
+        for b in (0..=45).map(|x| x as f64).chain([64.0, 100.0, 308.0, 1023.0, 1024.0, 0.5, 2.5]) {
+            exprs.push(bin(Bin::Pow, num(a), num(b)));
+            exprs.push(bin(Bin::Pow, bin(Bin::Sub, num(0.0), num(a)), num(b)));
+            exprs.push(bin(Bin::Pow, num(a), bin(Bin::Sub, num(0.0), num(b))));
+        }
+    }
+    // ABS and INT at the edges of the integer range and beyond
+    for t in ["9007199254740993", "9223372036854775807", "9223372036854775808", "10000000000000000000", "18446744073709551616", "1e30", ".5", "2.5", "0"] {
+        let v: f64 = t.parse().unwrap();
+        for e in [num(v), bin(Bin::Sub, num(0.0), num(v)), bin(Bin::Add, num(v), num(0.5)), bin(Bin::Sub, num(0.0), bin(Bin::Add, num(v), num(0.5))), bin(Bin::Mul, num(v), var("W")), bin(Bin::Mul, num(0.0), bin(Bin::Mul, num(v), var("W")))] {
+            exprs.push(Expr::Int(Box::new(e.clone())));
+            exprs.push(Expr::Abs(Box::new(e)));
+        }
+    }
+    exprs.push(Expr::Int(Box::new(un(Un::Neg, num(0.0)))));
+    exprs.push(Expr::Abs(Box::new(un(Un::Neg, num(0.0)))));
     for a in strs {
         exprs.push(un(Un::Not, st(a)));
     }
